@@ -173,56 +173,118 @@ example : sortedByTimeB [⟨4, 6, 0⟩, ⟨5, 9, 1⟩] = true ∧ nonNegB [⟨4,
     absTimeToPrevNext [⟨4, 6, 0⟩, ⟨5, 9, 1⟩] [⟨0, 2, 0⟩, ⟨2, 4, 1⟩, ⟨8, 9, 2⟩, ⟨12, 13, 3⟩] = .ok [(0, 2), (1, 3)] := by
   decide
 
-/-! ### sort_by_time -/
+/-! ### sort_by_time
 
-/-- on the fast path (time span ≤ (2^63 - 11)/(max shifted channel + 1), `sortSpanTooLarge = false`) the composite-key
-argsort of `sort_by_time` *is* the stable merge sort by (time, channel) — by time alone when the array has no channel
-field — so the result is a deterministic function of the input … -/
-theorem sort_eq_stable_lexicographic (hasChannel : Bool) (x : List CRow) (hok : sortSpanTooLarge hasChannel x = false) :
-    sortByTime hasChannel x = x.mergeSort (lexLeB hasChannel) :=
-  sortByTime_fast hok
+The model `sortByTime` is what the code computes: guard in float64 (`sortTooLargeFloat`), composite key in int64
+(`sortKeysW`, wraps), slow path `np.sort(order=…)`.  `sortRegular h x` (decidable) says that on `x` the float guard
+decides like the exact one (`span * (maxChannel + 1) > 2^63 - 11`) and no int64 operation wraps.  It excludes only a
+band of relative width ≈ 2⁻⁵² around `span * (maxChannel + 1) = 2^63` (and spans ≥ 2^63); inside the band the code
+takes the fast path with a wrapped key and returns an unsorted array (`sort_guard_band_counterexample`), so the
+statements below are `_partial` where they need it. -/
 
-/-- on both paths, for every input: the result is a permutation of the input sorted by (time, channel) -/
-theorem sort_perm_sorted (hasChannel : Bool) (x : List CRow) :
-    (sortByTime hasChannel x).Perm x ∧
-    (sortByTime hasChannel x).Pairwise (fun a b => lexLeB hasChannel a b = true) :=
-  sortByTime_perm_sorted hasChannel x
+/-- every path, every input: the result is a permutation of the input -/
+theorem sort_perm (hasChannel : Bool) (x : List CRow) : (sortByTime hasChannel x).Perm x :=
+  sortByTime_perm hasChannel x
+
+/-- outside the guard band, on the fast path (`sortSpanTooLarge = false`), the composite-key argsort *is* the stable
+merge sort by (time, channel) — by time alone when the array has no channel field -/
+theorem sort_eq_stable_lexicographic_partial (hasChannel : Bool) (x : List CRow)
+    (hreg : sortRegular hasChannel x = true) (hok : sortSpanTooLarge hasChannel x = false) :
+    sortByTime hasChannel x = x.mergeSort (lexLeB hasChannel) := by
+  rw [sortByTime_eq_exact hreg]; exact sortByTimeExact_fast hok
+
+/- Full statement (FALSE for the code as it is): ∀ x, the result is sorted by (time, channel).
+   Missing part: the guard band excluded by `sortRegular` (see `sort_guard_band_counterexample`). -/
+/-- outside the guard band, on both paths: the result is sorted by (time, channel) -/
+theorem sort_sorted_partial (hasChannel : Bool) (x : List CRow) (hreg : sortRegular hasChannel x = true) :
+    (sortByTime hasChannel x).Pairwise (fun a b => lexLeB hasChannel a b = true) := by
+  rw [sortByTime_eq_exact hreg]; exact (sortByTimeExact_perm_sorted hasChannel x).2
 
 /- Full statement (FALSE for the code as it is, see `sort_stable_counterexample`):
      ∀ x, perm ∧ sorted ∧ every already ordered subsequence of the input keeps its order in the output.
-   Missing part: stability on the slow path (`np.sort(order=…)` breaks ties with the remaining fields). -/
+   Missing parts: stability on the slow path (`np.sort(order=…)` breaks ties with the remaining fields) and the
+   guard band. -/
 /-- … and on the fast path it is stable: every subsequence of the input that is already in order (in particular any
 rows with equal time and channel) appears in the output in the same order. -/
 theorem sort_stable_perm_sorted_partial (hasChannel : Bool) (x : List CRow)
-    (hok : sortSpanTooLarge hasChannel x = false) :
+    (hreg : sortRegular hasChannel x = true) (hok : sortSpanTooLarge hasChannel x = false) :
     (sortByTime hasChannel x).Perm x ∧
     (sortByTime hasChannel x).Pairwise (fun a b => lexLeB hasChannel a b = true) ∧
     (∀ ys : List CRow, ys.Pairwise (fun a b => lexLeB hasChannel a b = true) → ys.Sublist x →
       ys.Sublist (sortByTime hasChannel x)) := by
-  rw [sortByTime_fast hok]
+  rw [sortByTime_eq_exact hreg, sortByTimeExact_fast hok]
   exact ⟨List.mergeSort_perm _ _,
     List.pairwise_mergeSort (lexLeB_trans hasChannel) (lexLeB_total hasChannel) x,
     fun ys h1 h2 => List.sublist_mergeSort (lexLeB_trans hasChannel) (lexLeB_total hasChannel) h1 h2⟩
 
 /-- the slow path (`np.sort(x, kind="mergesort", order=("time", "channel"))`) orders by (time, channel, remaining fields) -/
-theorem sort_slow_path_spec (hasChannel : Bool) (x : List CRow) (hbig : sortSpanTooLarge hasChannel x = true) :
-    sortByTime hasChannel x = isort (lexAllLeB hasChannel) x :=
-  sortByTime_slow hbig
+theorem sort_slow_path_spec (hasChannel : Bool) (x : List CRow)
+    (hreg : sortRegular hasChannel x = true) (hbig : sortSpanTooLarge hasChannel x = true) :
+    sortByTime hasChannel x = isort (lexAllLeB hasChannel) x := by
+  rw [sortByTime_eq_exact hreg]; exact sortByTimeExact_slow hbig
 
-/-- negation witness of the full statement: with a time span of 5·10^18 ns and two channels the slow path is taken and
-two rows with the same (time, channel) come out in the order of their other fields, not in input order
-(replayed on the real code: known finding `C17-sort-slow-path-not-stable`). -/
+/-- negation witness of stability: with a time span of 5·10^18 ns and two channels the slow path is taken and two rows
+with the same (time, channel) come out in the order of their other fields, not in input order (replayed on the real
+code: known finding `C17-sort-slow-path-not-stable`). -/
 theorem sort_stable_counterexample :
+    sortRegular true [⟨0, 1, 3⟩, ⟨0, 1, 2⟩, ⟨5000000000000000000, 0, 1⟩] = true ∧
     sortSpanTooLarge true [⟨0, 1, 3⟩, ⟨0, 1, 2⟩, ⟨5000000000000000000, 0, 1⟩] = true ∧
     sortByTime true [⟨0, 1, 3⟩, ⟨0, 1, 2⟩, ⟨5000000000000000000, 0, 1⟩] =
       [⟨0, 1, 2⟩, ⟨0, 1, 3⟩, ⟨5000000000000000000, 0, 1⟩] ∧
     ¬ [(⟨0, 1, 3⟩ : CRow), ⟨0, 1, 2⟩].Sublist (sortByTime true [⟨0, 1, 3⟩, ⟨0, 1, 2⟩, ⟨5000000000000000000, 0, 1⟩]) := by
   decide
 
+/-- negation witness of sortedness inside the guard band: span 2^62 + 100 with two channel values.  The float guard
+(`2^62 + 100` rounds to `2^62`, not larger than `2^63 / 2`) keeps the fast path, the int64 key of the last row wraps to
+`-2^63 + 201`, and the array is returned with time 4611686018427388004 in front of times 0 and 5 (same on the real
+code; such spans are ≈ 146 years). -/
+theorem sort_guard_band_counterexample :
+    sortRegular true [⟨4611686018427388004, 1, 0⟩, ⟨0, 0, 1⟩, ⟨5, 1, 2⟩] = false ∧
+    sortByTime true [⟨4611686018427388004, 1, 0⟩, ⟨0, 0, 1⟩, ⟨5, 1, 2⟩] =
+      [⟨4611686018427388004, 1, 0⟩, ⟨0, 0, 1⟩, ⟨5, 1, 2⟩] ∧
+    ¬ ([⟨4611686018427388004, 1, 0⟩, ⟨0, 0, 1⟩, ⟨5, 1, 2⟩] : List CRow).Pairwise (fun a b => lexLeB true a b = true) := by
+  refine ⟨by decide, ?_, by decide⟩
+  have hg : sortTooLargeFloat true [⟨4611686018427388004, 1, 0⟩, ⟨0, 0, 1⟩, ⟨5, 1, 2⟩] = false := by decide
+  have hk : sortKeysW true [⟨4611686018427388004, 1, 0⟩, ⟨0, 0, 1⟩, ⟨5, 1, 2⟩] = [-9223372036854775607, 0, 11] := by decide
+  simp only [sortByTime, hg, Bool.false_eq_true, ite_false, sortByTimeFastW, hk]
+  rw [List.mergeSort_of_pairwise (by decide)]
+  rfl
+
+/-- the code before the D33 fix (`channel = np.ones(len(x))`, a float64 array, when there is no channel field): the key
+`(time - tmin) * 2.0 + 1.0` collapses neighbouring times beyond 2^53 ns, so times `(2^53+1, 2^53, 0)` came back as
+`(0, 2^53+1, 2^53)` — not sorted; the fixed code (int64 key, `sortByTime`) sorts them -/
+theorem sort_no_channel_old_counterexample :
+    sortByTimeOldNoChannel [⟨9007199254740993, 0, 0⟩, ⟨9007199254740992, 0, 1⟩, ⟨0, 0, 2⟩] =
+      [⟨0, 0, 2⟩, ⟨9007199254740993, 0, 0⟩, ⟨9007199254740992, 0, 1⟩] ∧
+    sortRegular false [⟨9007199254740993, 0, 0⟩, ⟨9007199254740992, 0, 1⟩, ⟨0, 0, 2⟩] = true ∧
+    (sortByTime false [⟨9007199254740993, 0, 0⟩, ⟨9007199254740992, 0, 1⟩, ⟨0, 0, 2⟩]).Pairwise
+      (fun a b => lexLeB false a b = true) :=
+  ⟨by decide, by decide, sort_sorted_partial false _ (by decide)⟩
+
 /-- two rows with the same (time, channel) keep their input order on the fast path (`mergeSort` does not reduce by
 `decide`, so the instance goes through the statement above) -/
 example : [(⟨5, 1, 0⟩ : CRow), ⟨5, 1, 3⟩].Sublist (sortByTime true [⟨5, 1, 0⟩, ⟨3, 2, 1⟩, ⟨3, -1, 2⟩, ⟨5, 1, 3⟩]) :=
-  (sort_stable_perm_sorted_partial true _ (by decide)).2.2 _ (by decide) (by decide)
+  (sort_stable_perm_sorted_partial true _ (by decide) (by decide)).2.2 _ (by decide) (by decide)
+
+/-! ### sort_enforcement.py -/
+
+/-- any sort kind other than `"mergesort"` is rejected (`SortingError`) by `stable_sort`, `stable_argsort` and by the two
+kernels that take a sort kind -/
+theorem unstable_sort_kind_rejected (kind : String) (hk : kind ≠ "mergesort") (arr : List Int) (hasChannel : Bool)
+    (x : List CRow) (things containers : List Row) (window : Int) :
+    stableArgsort kind arr = none ∧ stableSort kind arr = none ∧ sortByTimeAndChannelKind kind hasChannel x = none ∧
+    touchingWindowsCoreKind kind things containers window = none :=
+  sort_kind_rejected hk arr hasChannel x things containers window
+
+/-- with `"mergesort"`, `stable_sort` returns a sorted permutation and `stable_argsort` the indices of the stable merge
+sort (a permutation of `0..n-1`; keys sorted; already ordered subsequences, in particular equal keys, keep their order) -/
+theorem stable_sort_spec (arr : List Int) :
+    (∃ out, stableSort "mergesort" arr = some out ∧ out.Perm arr ∧ out.Pairwise (· ≤ ·)) ∧
+    (let sorted := arr.zipIdx.mergeSort fun p q => decide (p.1 ≤ q.1)
+     stableArgsort "mergesort" arr = some (sorted.map (·.2)) ∧ (sorted.map (·.2)).Perm (List.range arr.length) ∧
+      sorted.Pairwise (fun p q => p.1 ≤ q.1) ∧
+      ∀ ys : List (Int × Nat), ys.Pairwise (fun p q => p.1 ≤ q.1) → ys.Sublist arr.zipIdx → ys.Sublist sorted) :=
+  ⟨stableSort_mergesort arr, stableArgsort_mergesort arr⟩
 
 /-! ### split_touching_windows -/
 
@@ -251,9 +313,10 @@ theorem translation_invariant_overlap (d a1 nA b1 nB : Int) :
     overlapIndices (a1 + d) nA (b1 + d) nB = overlapIndices a1 nA b1 nB :=
   overlapIndices_shift d a1 nA b1 nB
 
-theorem translation_invariant_sort (d : Int) (hasChannel : Bool) (x : List CRow) :
-    sortByTime hasChannel (x.map (shiftC d)) = (sortByTime hasChannel x).map (shiftC d) :=
-  sortByTime_shift d hasChannel x
+theorem translation_invariant_sort (d : Int) (hasChannel : Bool) (x : List CRow)
+    (hreg : sortRegular hasChannel x = true) (hreg' : sortRegular hasChannel (x.map (shiftC d)) = true) :
+    sortByTime hasChannel (x.map (shiftC d)) = (sortByTime hasChannel x).map (shiftC d) := by
+  rw [sortByTime_eq_exact hreg, sortByTime_eq_exact hreg']; exact sortByTimeExact_shift d hasChannel x
 
 /-! ### inputs violating sortedness are rejected -/
 
